@@ -202,6 +202,7 @@ class Net:
         self.cleans: list[dict] = []
         self.after_exit: list[dict] = []
         self.never_withdrawn: list[str] = []
+        self.opened_while_paused: list[dict] = []
         self.cleans_checked = 0
         self.after_exit_checked = 0
 
@@ -434,6 +435,12 @@ async def _stream_prober(net: Net, op: Op) -> None:
             async with watching.streaming_block(resource=_LAZY.get(), namespace=None, operator_paused=op.paused) as waiter:
                 op.stream_open = True
                 op.stream_log.append((ms(net.loop.time()), 'open'))
+                if op.paused.is_on():
+                    # the block let us through although the operator is paused: report, then wait on the
+                    # harness side so that the simulation does not spin
+                    net.opened_while_paused.append({'at_ms': ms(net.loop.time()), 'operator': op.id})
+                    await op.paused.wait_for(False)
+                    continue
                 await asyncio.wait([waiter])
                 op.stream_open = False
                 op.stream_log.append((ms(net.loop.time()), 'closed'))
@@ -729,6 +736,8 @@ def monitor_final(ctx: fw.Ctx, net: Net) -> None:
             if (r[2] if r[2] is not None else now) + r[1] * 1000 > now:
                 ctx.fail('an operator that exited or was killed long ago still has a live record',
                          {'scenario': sc, 'operator': op.id}, observed={'record': r, 'at_ms': now}, sig='net-zombie-record')
+    for v in net.opened_while_paused[:3]:
+        ctx.fail('a watch-stream was (re)opened while the operator is paused', {'scenario': sc, **v}, sig='net-stream-open-while-paused')
     for ident in net.never_withdrawn:
         ctx.fail('an operator exited gracefully without removing its record', {'scenario': sc, 'operator': ident},
                  observed={'status': net.body.get('status')}, sig='net-exit-not-withdrawn')
